@@ -241,19 +241,29 @@ func analyseMapRoutine(c *Ctx, fn *ssa.Function) *mapRoutine {
 		return m
 	}
 	hdr := ei.events[0]
-	if hdr.Kind != "call" || hdr.Callee == nil || hdr.Callee.Name() != "appendMapHeader" ||
-		hdr.Call.Call.Args[0] != pt || hdr.Call.Call.Args[1] != pb || hdr.Call.Call.Args[2] != pp {
+	var hdrN ssa.Value
+	switch {
+	case hdr.Kind == "call" && hdr.Callee != nil && hdr.Callee.Name() == "appendMapHeader" &&
+		hdr.Call.Call.Args[0] == pt && hdr.Call.Call.Args[1] == pb && hdr.Call.Call.Args[2] == pp:
+		for _, r := range referrers(hdr.Call) {
+			if ex, ok := r.(*ssa.Extract); ok && ex.Index == 1 {
+				hdrN = ex
+			}
+		}
+	case hdr.Kind == "bytes" && hdr.N == 6:
+		// the header helper written out: the same six bytes, from the same live count
+		good, count := mapHeaderEvent(hdr, pt.Name())
+		if !good {
+			bad("first emission is neither appendMapHeader(t, b, p) nor the six header bytes [K.WT, V.WT, live count]")
+			return m
+		}
+		hdrN = count
+	default:
 		bad("first emission is not appendMapHeader(t, b, p)")
 		return m
 	}
 	if len(ei.foreign) > 0 {
 		bad("output buffer used other than by append at %s", c.InstrPos(ei.foreign[0]))
-	}
-	var hdrN ssa.Value
-	for _, r := range referrers(hdr.Call) {
-		if ex, ok := r.(*ssa.Extract); ok && ex.Index == 1 {
-			hdrN = ex
-		}
 	}
 	// iteration source
 	var rng *ssa.Range
@@ -567,12 +577,15 @@ func checkCount(c *Ctx, fn *ssa.Function, hdrN ssa.Value, ei *emitInfo, bad func
 				continue
 			}
 		}
+		if definitelyNonNilErr(errv, b) {
+			continue // a failure, whatever the count
+		}
 		if isNilConst(errv) {
-			// allowed only on the n == 0 early exit
+			// allowed only on the n == 0 early exit, or where the remaining count is known to be 0 (checkMapN written out)
 			okEarly := false
 			for _, cd := range domConds(b) {
-				if bo, ok := cd.V.(*ssa.BinOp); ok && bo.Op == token.EQL && bo.X == hdrN && cd.Truth {
-					if z, ok := constInt(bo.Y); ok && z == 0 {
+				if bo, ok := cd.V.(*ssa.BinOp); ok && (bo.X == hdrN || bo.X == ssa.Value(nphi)) {
+					if z, ok := constInt(bo.Y); ok && z == 0 && (bo.Op == token.EQL && cd.Truth || bo.Op == token.NEQ && !cd.Truth) {
 						okEarly = true
 					}
 				}
@@ -984,21 +997,55 @@ func analyseListRoutine(c *Ctx, fn *ssa.Function) *listRoutine {
 	}
 	hdr := ei.events[0]
 	elemDesc := pt.Name() + ".V"
-	if hdr.Kind != "call" || hdr.Callee == nil || hdr.Callee.Name() != "appendListHeader" ||
-		path(hdr.Call.Call.Args[0]) != elemDesc || hdr.Call.Call.Args[1] != pb || hdr.Call.Call.Args[2] != pp {
-		bad("first emission is not appendListHeader(t.V, b, p)")
-		return l
-	}
 	var hdrN, hdrP ssa.Value
-	for _, r := range referrers(hdr.Call) {
-		if ex, ok := r.(*ssa.Extract); ok {
-			switch ex.Index {
-			case 1:
-				hdrN = ex
-			case 2:
-				hdrP = ex
+	nHdr := 1 // leading events that make up the header
+	elemRoot := "call:appendListHeader#2"
+	switch {
+	case hdr.Kind == "call" && hdr.Callee != nil && hdr.Callee.Name() == "appendListHeader" &&
+		path(hdr.Call.Call.Args[0]) == elemDesc && hdr.Call.Call.Args[1] == pb && hdr.Call.Call.Args[2] == pp:
+		for _, r := range referrers(hdr.Call) {
+			if ex, ok := r.(*ssa.Extract); ok {
+				switch ex.Index {
+				case 1:
+					hdrN = ex
+				case 2:
+					hdrP = ex
+				}
 			}
 		}
+	case hdr.Kind == "bytes" && hdr.N == 5:
+		// the header helper written out: five header bytes (a zero count for the nil slice, the live length otherwise), the
+		// elements start at the slice's data pointer
+		nHdr = 0
+		for _, e := range ei.events {
+			if e.Kind != "bytes" || e.N != 5 {
+				break
+			}
+			nHdr++
+			good, why, live, count := listHeaderEvent(e, elemDesc, pp)
+			if !good {
+				bad("list header written out in the routine: %s", why)
+				return l
+			}
+			if live {
+				hdrN = count
+			}
+		}
+		for _, b := range fn.Blocks {
+			for _, in := range b.Instrs {
+				if u, ok := in.(*ssa.UnOp); ok && u.Op == token.MUL {
+					if recv, typ, f, ok := fieldOf(u); ok && typ == "sliceHeader" && f == "Data" {
+						if cv, ok := recv.(*ssa.Convert); ok && cv.X == ssa.Value(pp) && hdrP == nil {
+							hdrP = u
+							elemRoot = "load:" + path(u.X)
+						}
+					}
+				}
+			}
+		}
+	default:
+		bad("first emission is not appendListHeader(t.V, b, p)")
+		return l
 	}
 	if hdrN == nil || hdrP == nil {
 		bad("header count / data pointer unused")
@@ -1138,12 +1185,97 @@ func analyseListRoutine(c *Ctx, fn *ssa.Function) *listRoutine {
 		}
 	}
 	if !boundOK {
+		// bottom-tested count-up form: the body runs, then the loop continues while the number of elements done is < n; entered
+		// only when n != 0. The tested value is 1 at the first test: a counter from 1, or the incremented value of one from 0.
+		for _, b := range fn.Blocks {
+			for _, in := range b.Instrs {
+				ip, ok := in.(*ssa.Phi)
+				if !ok || len(ip.Edges) != 2 {
+					continue
+				}
+				start, hasStart := int64(0), false
+				var inc *ssa.BinOp
+				for _, e := range ip.Edges {
+					if v, ok := constInt(e); ok {
+						start, hasStart = v, true
+					}
+					if a, ok := e.(*ssa.BinOp); ok && a.Op == token.ADD && a.X == ssa.Value(ip) {
+						if v, ok := constInt(a.Y); ok && v == 1 {
+							inc = a
+						}
+					}
+				}
+				if !hasStart || inc == nil {
+					continue
+				}
+				var tested ssa.Value
+				switch start {
+				case 1:
+					tested = ip
+				case 0:
+					tested = inc
+				default:
+					continue
+				}
+				stays := false
+				for _, r := range referrers(tested) {
+					cmp, ok := r.(*ssa.BinOp)
+					if !ok || cmp.X != tested || cmp.Y != hdrN || cmp.Op != token.LSS && cmp.Op != token.GEQ {
+						continue
+					}
+					for _, rr := range referrers(cmp) {
+						iff, ok := rr.(*ssa.If)
+						if !ok {
+							continue
+						}
+						tb := iff.Block()
+						in0 := blockReaches(tb.Succs[0], b) || tb.Succs[0] == b
+						in1 := blockReaches(tb.Succs[1], b) || tb.Succs[1] == b
+						stay := in0
+						if cmp.Op == token.GEQ {
+							stay = in1
+						}
+						// the test comes after the element was emitted: every emission in the loop dominates it
+						after := true
+						for _, e := range ei.events[nHdr:] {
+							eb := e.Instr.Block()
+							if (eb == b || b.Dominates(eb)) && blockReaches(eb, b) && !(eb == tb || eb.Dominates(tb)) {
+								after = false
+							}
+						}
+						if in0 != in1 && stay && after && tb != b {
+							stays = true
+						}
+					}
+				}
+				if !stays {
+					continue
+				}
+				entered := true
+				nEntry := 0
+				for _, p := range b.Preds {
+					if blockReaches(b, p) {
+						continue // back edge
+					}
+					nEntry++
+					okEdge := holdsAt(p, descInt(hdrN), "!=", "0", descInt) || holdsAt(p, "0", "!=", descInt(hdrN), descInt) || holdsAt(p, "0", "<", descInt(hdrN), descInt)
+					if !okEdge {
+						entered = false
+					}
+				}
+				if entered && nEntry > 0 {
+					boundOK = true
+				}
+			}
+		}
+	}
+	if !boundOK {
 		bad("loop is not `for i := 0; i < n; i++` over the header count")
 	}
 	// per-element emissions
 	isElemPtr := func(v ssa.Value) bool {
 		for _, r := range ptrRoots(v) {
-			if r != "call:appendListHeader#2" {
+			if r != elemRoot {
 				return false
 			}
 		}
@@ -1156,7 +1288,7 @@ func analyseListRoutine(c *Ctx, fn *ssa.Function) *listRoutine {
 		c32  bool
 	}
 	var parts []part
-	for _, e := range ei.events[1:] {
+	for _, e := range ei.events[nHdr:] {
 		switch e.Kind {
 		case "bytes", "uint", "bool":
 			if e.Kind == "bytes" && e.N != 1 {
